@@ -312,18 +312,19 @@ Proof.
     + apply IH; assumption.
 Qed.
 
-(* without a trailer candidate in the file and without a trailer read before, the root of a reconstruction is the
-   fallback's answer over the reconstructed table *)
+(* without a trailer candidate in the file, without a trailer read before and without a cross-reference stream among
+   the objects found, the root of a reconstruction is the fallback's answer over the reconstructed table *)
 Lemma recon_root_without_trailer_lemma : forall (maxid : Z) (file : list N) (len : N) (deleted : list Z),
   rc_trailer_pos (rc_scan_events file) = [] ->
+  rc_xs_trailer file len (rc_recon_table maxid deleted (rc_scan_events file)) = None ->
   r_root (rc_reconstruct maxid file len deleted None) =
   rc_last_catalog file len (rc_recon_table maxid deleted (rc_scan_events file)) None.
 Proof.
-  intros maxid file len deleted H. unfold rc_reconstruct. rewrite H. simpl. reflexivity.
+  intros maxid file len deleted H Hx. unfold rc_reconstruct. rewrite H. simpl. rewrite Hx. reflexivity.
 Qed.
 
 (* "finds the catalog" when no trailer survives: over a written file whose bodies satisfy no_lookalike and whose
-   tail holds no trailer keyword, if the current catalog `cur` (last definition at `off`) has a higher id than every
+   tail holds no trailer keyword, with no cross-reference stream among its objects, if the current catalog `cur` (last definition at `off`) has a higher id than every
    other object whose last definition is a catalog - which is what an incremental update that takes a fresh object
    number for its catalog produces - the reconstruction's /Root is `cur` *)
 Lemma recon_finds_current_catalog_lemma :
@@ -331,6 +332,8 @@ Lemma recon_finds_current_catalog_lemma :
   rs_blank pre = true -> objs <> [] ->
   Forall (fun o => rs_wf_obj o = true) objs -> rs_tail_quiet tail = true ->
   rc_trailer_pos (rc_scan_events (rs_write pre objs tail)) = [] ->
+  rc_xs_trailer (rs_write pre objs tail) (rc_len (rs_write pre objs tail))
+                (rc_recon_table maxid [] (rc_scan_events (rs_write pre objs tail))) = None ->
   rs_valid_id maxid cur = true ->
   rs_last_def cur (rs_offsets (N.of_nat (length pre)) objs) None = Some off ->
   rc_is_catalog (rs_write pre objs tail) (rc_len (rs_write pre objs tail)) off = true ->
@@ -340,8 +343,8 @@ Lemma recon_finds_current_catalog_lemma :
      k = cur \/ rc_og_ltb k cur = true) ->
   r_root (rc_reconstruct maxid (rs_write pre objs tail) (rc_len (rs_write pre objs tail)) [] None) = Some cur.
 Proof.
-  intros pre objs tail maxid cur off Hb Hne Hwf Hq Htr Hv Hdef Hcat Hmax.
-  rewrite recon_root_without_trailer_lemma by exact Htr.
+  intros pre objs tail maxid cur off Hb Hne Hwf Hq Htr Hxs Hv Hdef Hcat Hmax.
+  rewrite recon_root_without_trailer_lemma by assumption.
   apply catalog_fallback_highest_lemma; [apply recon_table_sorted|].
   pose proof (recon_table_spec_lemma pre objs tail maxid) as Spec.
   split.
